@@ -318,6 +318,25 @@ def strip_notes(x):
     return x
 
 
+def drop_empty_rows(doc):
+    """removes the line / sub-line discount and charge rows that are EMPTY - no key, code, reason or extension and
+    every number (percentage, amount, rate) zero or absent - as normalisation does before a calculation; such a row
+    changes no figure. (A fixed amount below half a minor unit is presented as zero under the 'currency' rule, so
+    the result of a calculation can hold such rows although its source did not.)"""
+    def empty(r):
+        if any(r.get(k) for k in ("key", "code", "reason", "ext")):
+            return False
+        return not Gen.row_has_value(r)
+    for l in doc.get("lines", []):
+        for row in [l] + list(l.get("breakdown", [])):
+            for k in ("discounts", "charges"):
+                if k in row:
+                    row[k] = [r for r in row[k] if not empty(r)]
+                    if not row[k]:
+                        del row[k]
+    return doc
+
+
 def json_line(op_, doc, prefix="c01"):
     return "%s %s %s" % (prefix, op_, w(json.dumps(strip_notes(doc))))
 
@@ -732,8 +751,26 @@ class Gen:
                 r["rate"] = self.amt(900, rng.choice([0, 1, 2, 2, 3]), tie=tie)
                 if rng.random() < 0.6:
                     r["quantity"] = self.amt(50, rng.choice([0, 1, 1, 2, 3]))
+            self.both_given_row(r, 5000, self.fixed_dec)
+            if getattr(self, "unlabelled", False) and rng.random() < 0.4 and self.row_has_value(r):
+                # a row given by its numbers alone (no key / code / reason): it still takes part in the arithmetic
+                del r["reason"]
             rows.append(r)
         return rows
+
+    @staticmethod
+    def row_has_value(r):
+        """some number of the row is not zero (a row of zeros without a label is legitimately dropped as empty)"""
+        for k in ("percent", "amount", "rate"):
+            if k in r and not (parse_pct(r[k]) if k == "percent" else parse(r[k])).iszero():
+                return True
+        return False
+
+    def both_given_row(self, r, maxv, dec):
+        """with `both_given`: a row defined by a percentage (or a rate) that ALSO carries an amount - as every row of an
+        already calculated document does, and as a caller may supply; the amount is derived, whatever was there"""
+        if getattr(self, "both_given", False) and "amount" not in r and ("percent" in r or "rate" in r) and self.rng.random() < 0.15:
+            r["amount"] = self.amt(maxv, dec)
 
     def doc(self, c03=False, force_rule=None, regimes=("ES", "ES", "ES", "EL", "PT"), max_lines=5, big=False):
         """c03: restrict to the hypothesis of C03 (fixed amounts supplied at the currency's precision)."""
@@ -810,6 +847,7 @@ class Gen:
                 else:
                     r["percent"] = rng.choice(PCT)
                     r["base"] = self.amt(90000, rng.choice([2, 2, 3, 4]) if not c03 else c)
+                self.both_given_row(r, 9000, self.fixed_dec)
                 rows.append(r)
             return rows
         d, ch = ddc(), ddc()
@@ -834,6 +872,7 @@ class Gen:
             for i in range(rng.randint(1, 3)):
                 if rng.random() < 0.5:
                     dd_rows.append({"date": "2022-0%d-01" % (3 + i), "percent": rng.choice(PCT[:9])})
+                    self.both_given_row(dd_rows[-1], 3000, c)
                 else:
                     dd_rows.append({"date": "2022-0%d-01" % (3 + i), "amount": self.amt(3000, c if c03 else 3)})
             doc.setdefault("payment", {})["terms"] = {"key": "due-date", "due_dates": dd_rows}
@@ -844,6 +883,7 @@ class Gen:
             for i in range(rng.randint(1, 4)):
                 if rng.random() < 0.5:
                     rows.append({"description": "p%d" % i, "percent": rng.choice(PCT[:9] + ["2.5%", "12.5%", "0.5%"])})
+                    self.both_given_row(rows[-1], 3000, c)
                 else:
                     rows.append({"description": "f%d" % i, "amount": self.amt(3000, c if c03 else rng.choice([c, c, 2, 3]))})
             doc.setdefault("payment", {})["advances"] = rows
@@ -929,14 +969,16 @@ def shrink_doc(doc, fails, budget=150):
     return cur
 
 
-def run3(docs, prefix="c01", op_="calc"):
-    """Go, model and python oracle on the same documents. Returns list of dicts."""
+def run3(docs, prefix="c01", op_="calc", go_lines=None):
+    """Go, model and python oracle on the same documents. Returns list of dicts.
+    go_lines: the requests to the implementation when they are not `op_` of the document itself (another entry
+    point reaching the same state, e.g. a second in-memory calculation of the document's source)."""
     from vlib import run_go, run_oracle, parse_wire
     jl, wl, pr = [], [], []
     for d in docs:
         clear_resolved(d)
         jl.append(json_line(op_, d, prefix))
-    go = run_go(jl)
+    go = run_go(jl if go_lines is None else go_lines)
     gos = []
     for d, g in zip(docs, go):
         gv = parse_wire(g)
